@@ -506,6 +506,31 @@ func c08CheckPayload(c *c08Codec, root reflect.Value, leafs []c08Leaf, vals []re
 			return "json-int64-as-number-differs:" + c.Name + ":" + seg, desc + " json=" + c08Trunc(string(alt))
 		}
 	}
+	// ill-sized values in the place of a fixed-size id (hex string): shorter, longer - by one byte, by a whole other id, by
+	// kilobytes -, odd, not hex: rejected or accepted, but never a panic ("decoding arbitrary bytes never panics", here
+	// for bytes that are well-formed JSON of the right shape)
+	for _, l := range leafs {
+		if l.typ.Kind() != reflect.Array || l.json == "" {
+			continue
+		}
+		re := regexp.MustCompile(`("` + regexp.QuoteMeta(l.json) + `":\s*")([0-9a-fA-F]+)(")`)
+		m := re.FindSubmatch(js)
+		if m == nil {
+			continue
+		}
+		hexv := string(m[2])
+		for _, v := range []string{"", "0", "zz", hexv[:len(hexv)-2], hexv + "00", hexv + hexv, hexv + "0", strings.Repeat("ab", 4096)} {
+			alt := re.ReplaceAll(js, []byte("${1}"+v+"${3}"))
+			var pan any
+			func() {
+				defer func() { pan = recover() }()
+				_, _ = c.UnmarshalJSON(alt)
+			}()
+			if pan != nil {
+				return "json-decode-panic:" + c.Name + ":" + seg, fmt.Sprintf("%s %q written with %d hex digits: the JSON decoder panicked: %v", desc, l.json, len(v), pan)
+			}
+		}
+	}
 	// enums written as names instead of numbers
 	for i, l := range leafs {
 		if c08IsEnum(l.typ) && l.json != "" {
